@@ -2,6 +2,7 @@
 //! it is not ready before `d` has elapsed.  A task is scheduled with the delay on a LocalPool that is polled for a
 //! while; the observation is whether and when its body ran.  One line per case: `<id> ran-early | ran | not-run`.
 use futures::executor::LocalPool;
+use rxrust::ops::throttle::ThrottleEdge;
 use rxrust::prelude::*;
 use std::cell::Cell;
 use std::rc::Rc;
@@ -56,8 +57,99 @@ fn one(id: &str, delay: Duration, kind: Kind, window: Duration) {
   println!("{id} {obs}");
 }
 
+/// A scheduler that takes its time to accept a task (a loaded executor): `schedule` is entered, reported, and returns late.
+#[derive(Clone)]
+struct SlowScheduler {
+  pool: FuturesThreadPoolScheduler,
+  entered: std::sync::mpsc::Sender<()>,
+  latency: Duration,
+}
+
+impl<T> Scheduler<T> for SlowScheduler
+where
+  T: std::future::Future,
+  FuturesThreadPoolScheduler: Scheduler<T>,
+{
+  fn schedule(&self, task: T, delay: Option<Duration>) -> TaskHandle<T::Output> {
+    let _ = self.entered.send(());
+    std::thread::sleep(self.latency);
+    self.pool.schedule(task, delay)
+  }
+}
+
+/// `unsubscribe()` from one thread while an item of another thread is inside the operator, being handed to the scheduler:
+/// unsubscribe() may wait for that call, but once it has returned - and a remaining handle says closed - nothing is delivered.
+fn race(id: &str, op: &str) {
+  use std::sync::{mpsc, Arc, Mutex};
+  let (tx, rx) = mpsc::channel::<String>();
+  let op = op.to_string();
+  std::thread::spawn(move || {
+    let (entered_tx, entered_rx) = mpsc::channel();
+    let scheduler = SlowScheduler {
+      pool: FuturesThreadPoolScheduler::new().unwrap(),
+      entered: entered_tx,
+      latency: Duration::from_millis(400),
+    };
+    let source = SubjectThreads::<i32, std::convert::Infallible>::default();
+    let hits = Arc::new(Mutex::new(Vec::<i32>::new()));
+    let h = hits.clone();
+    let d = Duration::from_millis(200);
+    let subscription = match op.as_str() {
+      "debounce" => BoxSubscriptionThreads::new(source.clone().debounce(d, scheduler).subscribe(move |v| h.lock().unwrap().push(v))),
+      "delay" => BoxSubscriptionThreads::new(source.clone().delay_threads(d, scheduler).subscribe(move |v| h.lock().unwrap().push(v))),
+      "throttle" => BoxSubscriptionThreads::new(
+        source.clone().throttle_time(d, ThrottleEdge::tailing(), scheduler).subscribe(move |v| h.lock().unwrap().push(v)),
+      ),
+      _ => BoxSubscriptionThreads::new(source.clone().observe_on_threads(scheduler).subscribe(move |v| h.lock().unwrap().push(v))),
+    };
+    let mut composite = MultiSubscriptionThreads::default();
+    composite.append(subscription);
+    let watcher = composite.clone();
+    let producer = {
+      let mut source = source.clone();
+      std::thread::spawn(move || source.next(1))
+    };
+    if entered_rx.recv_timeout(Duration::from_secs(5)).is_err() {
+      let _ = tx.send("the item never reached the scheduler".into());
+      return;
+    }
+    std::thread::sleep(Duration::from_millis(50));
+    composite.unsubscribe();
+    let closed = watcher.is_closed();
+    let seen_at_unsubscribe = hits.lock().unwrap().len();
+    let _ = producer.join();
+    std::thread::sleep(Duration::from_millis(900));
+    let seen = hits.lock().unwrap().clone();
+    let r = if !closed {
+      "a remaining handle did not report closed after unsubscribe() had returned".to_string()
+    } else if seen.len() != seen_at_unsubscribe {
+      format!("delivered after unsubscribe() had returned: {:?}", &seen[seen_at_unsubscribe..])
+    } else {
+      "ok".to_string()
+    };
+    let _ = tx.send(r);
+  });
+  match rx.recv_timeout(Duration::from_secs(12)) {
+    Ok(r) => println!("{id} {r}"),
+    Err(_) => println!("{id} hang"),
+  }
+}
+
 fn main() {
   std::panic::set_hook(Box::new(|_| {}));
+  if std::env::args().nth(1).as_deref() == Some("races") {
+    let hs: Vec<_> = ["debounce", "delay", "throttle", "observe_on"]
+      .iter()
+      .map(|op| {
+        let op = op.to_string();
+        std::thread::spawn(move || race(&format!("race-{op}"), &op))
+      })
+      .collect();
+    for h in hs {
+      let _ = h.join();
+    }
+    return;
+  }
   let w = Duration::from_millis(350);
   for (kind, repeat) in [("timer", Kind::Timer), ("interval", Kind::Interval), ("delay", Kind::Delay), ("delay_subscription", Kind::DelaySubscription)] {
     one(&format!("{kind}-0ms"), Duration::from_millis(0), repeat, w);
